@@ -698,7 +698,7 @@ class CallsMixin:
             if isinstance(v.shape, ConcS) and isinstance(v.d, GenExp):
                 items = self.unroll_gen(v.d, st)
                 if items is None:
-                    raise OutOfSubset("max over generator on symbolic list")
+                    return self._max_gen(v.d, st, is_max)
             else:
                 sv = self.as_sym(v)
                 its = self.static_items(sv)
@@ -733,6 +733,20 @@ class CallsMixin:
             best = V.ite(take, x, best)
             have = z3.Or(have, c if c is not None else z3.BoolVal(True))
         return best
+
+    def _max_gen(self, g: GenExp, st, is_max):
+        """max/min of a generator over a symbolic-length list: the element at a fresh index j
+        that passes the filter and dominates every other passing element."""
+        n, body = self.quantify_gen(g, st)
+        j = z3.Int(V.fresh_name("argmax"))
+        cj, ej = body(j)
+        ej = self.as_sym(ej)
+        anyc = Q.exists(self, z3.IntVal(0), n, lambda k: body(k)[0], "mg")
+        self.raise_side(st, "ValueError", z3.Not(anyc))
+        ge = ast.GtE() if is_max else ast.LtE()
+        st.assume(z3.And(j >= 0, j < n, cj))
+        st.assume(Q.forall(self, z3.IntVal(0), n, lambda k: z3.Implies(body(k)[0], self.compare(ge, ej, self.as_sym(body(k)[1]), st)), "mg"))
+        return ej
 
     def _max_seq(self, seq: Val, key, st, is_max):
         n = seq.d[1]
